@@ -123,7 +123,7 @@ CHECKS = {
    category="exploration",
    text="Sanitizer + runtime monitor: concurrent rounds (4/16/64 goroutines) over in-process MuxBroker / GRPCBroker / multiplexed pairs and over one real Client with a race-built plugin process serving several dispensed implementations and brokered connections; a third of the rounds race Close / server Stop / concurrent Kill with in-flight operations; managed clients are created while CleanupClients runs; every other broker round starts with bursts of NextId calls across the uint32 wrap; every other client round uses AutoMTLS against a plugin logging to stderr from process start, the others have a second host reattached to the same plugin while the operations make it write to stdout/stderr; seeded jitter at every hook point. The Go race detector runs in both processes (reports attributed to go-plugin by accessing frame and de-duplicated by function pair), host deaths, recovered panics and plugin-side panic lines are violations, and the multiset of NextId results must be duplicate-free.",
    design_ref="DESIGN.md section 3, C20",
-   note="A clean race-detector run covers only the accesses and schedules this workload produced (bounded per-location history).",
+   note="A clean race-detector run covers only the accesses and schedules this workload produced (bounded per-location history). A round that does not finish is not a C20 violation (the statement excludes races, double closes, panics and duplicate ids, not hangs): such a case is inconclusive, with the goroutine dump in the evidence.",
    technique="sanitizer: Go race detector on host and plugin under a concurrent stress workload, plus panic and NextId-uniqueness monitors"),
 }
 PENDING_REASON = "check not built yet in this revision; it is planned as a runtime monitor (see DESIGN.md section 3) and will move to 'checks' when it exists"
